@@ -366,7 +366,7 @@ impl Scheduler {
         debug_assert!(queue.core.lock().expect("JobQueue core lock").state.is_running());
 
         // Set the queue as active
-        let _active = ActiveQueue { queue: &*queue };
+        let _active = ActiveQueue::new(&*queue);
 
         // Call the function to get the result
         let result = job();
@@ -387,7 +387,7 @@ impl Scheduler {
         debug_assert!(queue.core.lock().expect("JobQueue core lock").state.is_running());
 
         // Set the queue as active
-        let _active = ActiveQueue { queue: &*queue };
+        let _active = ActiveQueue::new(&*queue);
 
         // When the task runs on the queue, we'll put it here
         let result = Arc::new((Mutex::new(None), Condvar::new()));
@@ -477,7 +477,7 @@ impl Scheduler {
                     mem::drop(ready);
 
                     // Set the queue as active (it's marked as panicked if one of the jobs we run for it panics)
-                    let _active = ActiveQueue { queue: &*queue };
+                    let _active = ActiveQueue::new(&*queue);
 
                     // We're now running the queue: try to run jobs on it until it's ready
                     while !*ready_mutex.lock().unwrap() {
